@@ -24,20 +24,38 @@ Waived(t) == {Traces[t].hdr.waive[i] : i \in DOMAIN Traces[t].hdr.waive}
 
 ASSUME \A i \in 1..NT : TLCSet(100 + i, 0)
 
+\* Oracle input.  The record size formula max(ceil(duration / dt) + inclusive, 1) is evaluated by
+\* the implementation in IEEE arithmetic; for step times such as 0.7 with a delay of 2.1 the float
+\* quotient is a hair above the integer (3.0000000000000004) and the ceiling is one more than the
+\* exact one.  hdr.nq and op.nq carry ceil(float(duration) / float(dt)) computed by the harness from
+\* the very floats it handed to the constructor / the setters; the specification uses it in place
+\* of its integer ceiling - for the re-configured component AND for the constructed reference.
+WithQ(m, q) ==
+  [m EXCEPT !.recs = [i \in DOMAIN m.recs |->
+                         [m.recs[i] EXCEPT !.n = Max(q + (IF m.recs[i].rincl THEN 1 ELSE 0), 1)]]]
+Core(s) == [abs |-> s.abs, m |-> s.m, path |-> s.path]
+QOf(s, o) == IF "nq" \in DOMAIN o THEN o.nq ELSE s.nq
+ApplyT(s, o) ==
+  {[st |-> [abs |-> mo.st.abs, m |-> IF o.a = "probe" THEN mo.st.m ELSE WithQ(mo.st.m, QOf(s, o)),
+            path |-> mo.st.path, nq |-> QOf(s, o)],
+    ret |-> mo.ret] : mo \in MApply(Core(s), o)}
+
 Init == /\ tid \in 1..NT
         /\ l = 1
-        /\ st = [abs |-> Traces[tid].hdr.init, m |-> Construct(Traces[tid].hdr.kind, Traces[tid].hdr.init),
-                 path |-> <<>>]
+        /\ st = [abs |-> Traces[tid].hdr.init,
+                 m |-> WithQ(Construct(Traces[tid].hdr.kind, Traces[tid].hdr.init), Traces[tid].hdr.nq),
+                 path |-> <<>>, nq |-> Traces[tid].hdr.nq]
 
-Good(s) == ReportsBack(s) /\ SizedAsFresh(s) /\ PathIndependent(s)
-Matches(e) == {mo \in MApply(st, e.op) : mo.ret = e.ret /\ Proj(mo.st) = e.st /\ Good(mo.st)}
+\* reports the assigned configuration; everything kept equals what the constructor sets for it
+Good(s) == ReportsBack(Core(s)) /\ s.m = WithQ(Construct(s.m.kind, s.abs), s.nq)
+Matches(e) == {mo \in ApplyT(st, e.op) : mo.ret = e.ret /\ Proj(Core(mo.st)) = e.st /\ Good(mo.st)}
 
 Step ==
   /\ l <= Len(Evs(tid))
   /\ LET e == Evs(tid)[l] IN
        IF l \in Waived(tid)
-       THEN \E mo \in MApply(st, e.op) : st' = mo.st
-       ELSE /\ AssignsOnly(st, e.op, Intended)
+       THEN \E mo \in ApplyT(st, e.op) : st' = mo.st
+       ELSE /\ AssignsOnly(Core(st), e.op, Intended)
             /\ \E mo \in Matches(e) : st' = mo.st
   /\ l' = l + 1
   /\ UNCHANGED tid
@@ -48,7 +66,7 @@ Track ==
   /\ TLCSet(100 + tid, MaxI(TLCGet(100 + tid), l))
   /\ IF l <= Len(Evs(tid)) /\ ~(l \in Waived(tid)) /\ Matches(Evs(tid)[l]) = {}
      THEN PrintT(ToJson([diag |-> tid, l |-> l,
-                         expected |-> {[st |-> Proj(mo.st), ret |-> mo.ret] : mo \in MApply(st, Evs(tid)[l].op)}]))
+                         expected |-> {[st |-> Proj(Core(mo.st)), ret |-> mo.ret] : mo \in ApplyT(st, Evs(tid)[l].op)}]))
      ELSE TRUE
 
 Post ==
